@@ -15,6 +15,11 @@ class Incompatible(Exception):
     """the pair of types is not related by the compatible edits this model knows"""
 
 
+class Inconsistent(Exception):
+    """the receiving spec declares an OPEN union, yet its description carries no catch-all tag: unknown tags cannot be
+    read as documented (docs/evolve_spec.rst) -- a violation, not an incompatibility of the pair"""
+
+
 def unalias(dt):
     while is_alias(dt):
         dt = dt.data_type
@@ -80,6 +85,8 @@ def view(dt_to, dt_from, sh, rename):
         if tag not in to_fields:
             catch = [f.name for f in dt_to.all_fields if f.catch_all]
             if not catch:
+                if not dt_to.closed:
+                    raise Inconsistent('open union %s has no catch-all tag' % dt_to.name)
                 raise Incompatible('new tag in a closed union')
             return ('union', dt_to, catch[0], None), True
         ft_to = unalias(to_fields[tag].data_type)
